@@ -465,18 +465,18 @@ def run(ctx):
         ABBR[k.b64] = "<K%d:%s>" % (i, k.kt)
     d = tempfile.mkdtemp(prefix="vf-c41-")
     try:
-        for i in range(ctx.pick(220, 1200)):
+        for i in range(ctx.pick(150, 1200)):
             file_scenario(ctx, rng, pool, d, i)
-        for i in range(ctx.pick(90, 500)):
+        for i in range(ctx.pick(60, 500)):
             history_scenario(ctx, rng, pool, d, i)
     finally:
         shutil.rmtree(d, ignore_errors=True)
-    ctx.require("files_loaded", 600)
-    ctx.require("lookups_compared_listed_host", 5000)
-    ctx.require("checks_compared_expected_true", 2000)
-    ctx.require("save_reload_cycles", 600)
-    ctx.require("reloads_compared", 800)
-    ctx.require("files_with_multi_host_lines", 300)
-    ctx.require("files_with_hashed_names", 300)
-    ctx.require("files_with_conflicting_keys", 150)
-    ctx.require("histories_run", 250)
+    ctx.require("files_loaded", 300)
+    ctx.require("lookups_compared_listed_host", 3000)
+    ctx.require("checks_compared_expected_true", 3000)
+    ctx.require("save_reload_cycles", 400)
+    ctx.require("reloads_compared", 500)
+    ctx.require("files_with_multi_host_lines", 200)
+    ctx.require("files_with_hashed_names", 150)
+    ctx.require("files_with_conflicting_keys", 100)
+    ctx.require("histories_run", 120)
